@@ -91,6 +91,12 @@ pub fn run(ctx: &Ctx) -> Report {
                 plan.headers.push((recase(h, (style + b as u64) % 3), value));
             }
         }
+        // every second case: each header also appears as a query parameter of the same name and value (what a
+        // presigner that "hoists" headers into the URL produces) -- a parameter is not a signed header
+        if (i / 4) % 2 == 1 {
+            let mirrored: Vec<(Vec<u8>, Vec<u8>)> = plan.headers.iter().filter(|h| !h.0.eq_ignore_ascii_case("host")).map(|h| (h.0.to_ascii_lowercase().into_bytes(), h.1.clone())).collect();
+            plan.url_params.extend(mirrored);
+        }
         plan.signed.clear();
         match host {
             0 => plan.signed.push("host".into()),
@@ -445,7 +451,7 @@ pub fn run(ctx: &Ctx) -> Report {
     Report {
         stats: st,
         rule: format!(
-            "64 requirement sets (always ⊆ {{x-req-a, Content-Type}}, if-in-request ⊆ {{x-opt-c, ETag}}, prefixes ⊆ {{x-p-, X-Amz}}) x {} letter-case styles x {} ways of building the requirements (slice, VecSignedHeaderRequirements::new, add_*, add_* then remove_* of decoys) x every subset of 7 optional request headers (one of them named exactly like the declared prefix x-p-; values rotate through empty, blank and non-empty) x every signed subset of the present headers and x-amz-date x {{host, :authority, neither}}; every request is correctly signed over exactly the list it declares, so only the requirement rules can refuse it. Oracle: reference verifier (Ok iff host/:authority signed, every always-header signed, every present conditional header signed, every present header matching a prefix — including x-amz-date and authorization-related ones — signed; otherwise SignatureDoesNotMatch/403 and an empty provider log). plus every sequence of up to {} add_*/remove_* operations over three names (two of them case variants of each other) on VecSignedHeaderRequirements, compared with a set model of what was declared; plus signed-header lists as multisets (a name repeated once / twice, every entry doubled, a name of a header not sent, as many repeats as there are unsigned sent headers) x 64 requirement sets x 15 header presence sets x every signed subset; plus 256 requirement sets whose declarations overlap (names declared always / conditionally required that also fall under a declared prefix, x-amz-date declared conditional, one name in two categories) x every presence subset of 5 headers x every signed subset x x-amz-date signed or not; plus a form POST with an empty and a dot path segment signed correctly under each of the 4 readings (folded or not, S3 path or normalised) x the server running each of the 4 option sets x 64 requirement sets x every signed subset of its 5 headers and x-amz-date x carrier (a signature good for another reading of the request never excuses an unsigned mandatory header). states = (requirement set, accepted)",
+            "64 requirement sets (always ⊆ {{x-req-a, Content-Type}}, if-in-request ⊆ {{x-opt-c, ETag}}, prefixes ⊆ {{x-p-, X-Amz}}) x {} letter-case styles x {} ways of building the requirements (slice, VecSignedHeaderRequirements::new, add_*, add_* then remove_* of decoys) x every subset of 7 optional request headers (one of them named exactly like the declared prefix x-p-; values rotate through empty, blank and non-empty; for every second case each header is repeated as a query parameter of the same name and value) x every signed subset of the present headers and x-amz-date x {{host, :authority, neither}}; every request is correctly signed over exactly the list it declares, so only the requirement rules can refuse it. Oracle: reference verifier (Ok iff host/:authority signed, every always-header signed, every present conditional header signed, every present header matching a prefix — including x-amz-date and authorization-related ones — signed; otherwise SignatureDoesNotMatch/403 and an empty provider log). plus every sequence of up to {} add_*/remove_* operations over three names (two of them case variants of each other) on VecSignedHeaderRequirements, compared with a set model of what was declared; plus signed-header lists as multisets (a name repeated once / twice, every entry doubled, a name of a header not sent, as many repeats as there are unsigned sent headers) x 64 requirement sets x 15 header presence sets x every signed subset; plus 256 requirement sets whose declarations overlap (names declared always / conditionally required that also fall under a declared prefix, x-amz-date declared conditional, one name in two categories) x every presence subset of 5 headers x every signed subset x x-amz-date signed or not; plus a form POST with an empty and a dot path segment signed correctly under each of the 4 readings (folded or not, S3 path or normalised) x the server running each of the 4 option sets x 64 requirement sets x every signed subset of its 5 headers and x-amz-date x carrier (a signature good for another reading of the request never excuses an unsigned mandatory header). states = (requirement set, accepted)",
             if thorough { 3 } else { 3 }, n_build, depth
         ),
         bounds: json!({"requirement_sets": 64, "shapes": n_shapes, "cases": total}),
